@@ -25,7 +25,7 @@ func Scan(data string, loc SourceLoc, delims []string) (tokens []Token) {
 	// TODO error on unterminated {{ and {%
 	// TODO probably an error when a tag contains a {{ or {%, at least outside of a string
 	p, pe := 0, len(data)
-	for _, m := range tokenMatcher.FindAllStringSubmatchIndex(data, -1) {
+	for _, m := range findTokens(tokenMatcher, data, delims) {
 		ts, te := m[0], m[1]
 		if p < ts {
 			tokens = append(tokens, Token{Type: TextTokenType, SourceLoc: loc, Source: data[p:ts]})
@@ -79,6 +79,36 @@ func Scan(data string, loc SourceLoc, delims []string) (tokens []Token) {
 		tokens = append(tokens, Token{Type: TextTokenType, SourceLoc: loc, Source: data[p:]})
 	}
 	return tokens
+}
+
+// findTokens returns the submatch indexes of the tags and objects in data, like
+// FindAllStringSubmatchIndex, except that the body of a raw or comment block is opaque:
+// scanning resumes at the block's end tag, so that tag-like text inside the body (an
+// unclosed "{{" or "{% x") cannot swallow the end tag. The body is then a text token.
+func findTokens(matcher *regexp.Regexp, data string, delims []string) (matches [][]int) {
+	for p := 0; p < len(data); {
+		m := matcher.FindStringSubmatchIndex(data[p:])
+		if m == nil {
+			break
+		}
+		for i := range m {
+			if m[i] >= 0 {
+				m[i] += p
+			}
+		}
+		matches = append(matches, m)
+		p = m[1]
+		if m[4] < 0 {
+			continue // an object
+		}
+		if name := data[m[4]:m[5]]; name == "raw" || name == "comment" {
+			end := regexp.MustCompile(regexp.QuoteMeta(delims[2]) + `-?\s*end` + name + `\s*-?` + regexp.QuoteMeta(delims[3]))
+			if loc := end.FindStringIndex(data[p:]); loc != nil {
+				p += loc[0]
+			}
+		}
+	}
+	return matches
 }
 
 func formTokenMatcher(delims []string) *regexp.Regexp {
